@@ -870,6 +870,8 @@ fn generate(a: &Args) -> i32 {
     let mut f32bits: Vec<u32> = vec![0, 1 << 31, 1, 0x007f_ffff, 0x0080_0000, 0x7f7f_ffff, 0x7f80_0000, 0xff80_0000, 0x7fc0_0000, 0x7f80_0001, 0x3f80_0000, 0x4b80_0000, 0x4b00_0000];
     for e in 0..256u32 { f32bits.push(e << 23); f32bits.push((e << 23) | 1); f32bits.push((e << 23) | 0x007f_ffff); }
     for v in [0.1f32, 1e-5, 1e7, 1e8, 16777216.0, 3.4028235e38, 1e-45, 1.1754944e-38, 0.3, 1e21] { f32bits.push(v.to_bits()); f32bits.push((-v).to_bits()); }
+    // the only f32 whose shortest decimal text rounds differently through f64 (found by an exhaustive scan of all patterns)
+    for b in [0x15AE43FDu32, 0x95AE43FD, 0x15AE43FC, 0x15AE43FE] { f32bits.push(b); }
     for _ in 0..(if thorough { 1_000_000 } else { 10_000 }) { f32bits.push(rng.next() as u32); }
     for bts in &f32bits { f32_case(&mut sink, &mut or, *bts); }
 
@@ -879,6 +881,13 @@ fn generate(a: &Args) -> i32 {
         let max: i128 = if w == 128 { i128::MAX } else { (1i128 << (w - 1)) - 1 };
         let min: i128 = if w == 128 { i128::MIN } else { -(1i128 << (w - 1)) };
         for v in [0, 1, -1, 9, 10, -10, 99, 100, max, max - 1, min, min + 1, max / 10, min / 10, 1000000007 % (max.max(1)), 7] { ints.push((w, v)); }
+        // the boundaries of every NARROWER width and every power of ten, +-1, inside this width (a reader or writer that
+        // takes a fast path through a narrower type shows up exactly there)
+        let mut cross: Vec<i128> = Vec::new();
+        for nw in [8u32, 16, 32, 64, 128] { if nw < w { for d in [-1i128, 0, 1] { cross.push((1i128 << (nw - 1)) + d); cross.push(-(1i128 << (nw - 1)) + d); cross.push((1i128 << nw) + d); } } }
+        let mut p10: i128 = 1;
+        for _ in 0..38 { p10 = p10.saturating_mul(10); for d in [-1i128, 0, 1] { cross.push(p10 + d); cross.push(-p10 + d); } }
+        for v in cross { if v >= min && v <= max { ints.push((w, v)); } }
     }
     for (w, v) in &ints {
         macro_rules! go { ($t:ty) => {{
@@ -894,7 +903,11 @@ fn generate(a: &Args) -> i32 {
     }
     for w in [8u32, 16, 32, 64, 128] {
         let max: u128 = if w == 128 { u128::MAX } else { (1u128 << w) - 1 };
-        for v in [0u128, 1, 9, 10, 255, max, max - 1, max / 2, max / 2 + 1, max / 10] {
+        let mut uvals: Vec<u128> = vec![0u128, 1, 9, 10, 255, max, max - 1, max / 2, max / 2 + 1, max / 10];
+        for nw in [8u32, 16, 32, 64] { if nw < w { for d in [0u128, 1, 2] { uvals.push((1u128 << nw) - 1 + d); uvals.push((1u128 << (nw - 1)) - 1 + d); } } }
+        let mut p10: u128 = 1;
+        for _ in 0..38 { p10 = p10.saturating_mul(10); for d in [0u128, 1, 2] { let v = p10 - 1 + d; if v <= max { uvals.push(v); } } }
+        for v in uvals {
             macro_rules! go { ($t:ty) => {{
                 let x = v as $t;
                 let doc = to_string_with_options(&x, O::DEFAULT.so()).unwrap_or_default();
